@@ -192,4 +192,15 @@ CLAIMS = {
         "they depend on what gcc / cl.exe / pcpp emit, which no static argument over this repository can bound. One defect repaired (unanchored endswith).",
         "technique": "sibling cross-check of filter functions; control-dependence comparison; reaching definitions of the comparison needle",
     },
+    "C17": {
+        "level": "Necessary conditions of the round trip decided on the formatter code by partial evaluation of every format()/format_decl() "
+        "over an enumerated shape domain (bools, optionals, list lengths 0-2, one placeholder per class of each child Union; 370 "
+        "evaluations): every compared field visible under every assignment of the others, prefix declarators around suffix kinds "
+        "delegate with a parenthesised declarator, arrays delegate the rest of the declarator (dimension order), comma lists well formed, "
+        "Parameter form; plus the C16 pair analysis for the token values inside types.",
+        "note": "NOT decided: round-trip equality itself (it needs the parser's behaviour on the formatted text). Four keys of one genuine "
+        "finding are listed (FunctionType.noexcept / msvc_convention never rendered); two defects were repaired (reference to function, "
+        "array dimension order). Types the parser cannot produce (rvalue reference to array/function) are outside the domain and only noted.",
+        "technique": "partial evaluation (AST interpretation) of pure formatting methods over a finite abstract shape domain; template comparison",
+    },
 }
